@@ -144,6 +144,22 @@ def run(ctx):
         r2.check(gok, "gate-before-every-login", "in Client::startup every way to AuthenticationOk crosses admin == true or admin_only == false, whatever the authentication method of the user",
                  "a non-admin client can be logged in while admin_only is set (after SIGINT / SHUTDOWN): it never hears the shutdown broadcast (sent before it subscribed), keeps starting transactions, "
                  "holds total_clients above 0 until shutdown_timeout and is cut off there", "", gwhy)
+    # admin SHUTDOWN is SIGINT by another road: `shutdown()` raises the signal against its own process. Whether the graceful shutdown starts must not depend on the
+    # administrator still being there to read the answer - the signal is raised before the function can return, fail or be suspended (round 11)
+    sd = ctx.body("pgcat::admin::shutdown::{closure#0}", r2)
+    if sd:
+        kills = sd.calls("re:^nix::sys::signal::kill$")
+        if not kills:
+            r2.missing("signal::kill in admin::shutdown")
+        else:
+            ends = [bb for bb, blk in enumerate(sd.blocks) if blk["term"]["k"] in ("return", "yield") and not blk["cleanup"]]
+            wit = sd.uncrossed_path([0], ends, blocks=[k.block for k in kills])
+            sig = [o for k in kills for o in origins(sd, k.args[1], taint=True)]
+            r2.check(bool(ends) and wit is None, "admin-shutdown-raises-the-signal-first", "admin SHUTDOWN raises the signal before any return, error exit or suspension of shutdown() (%d exits/suspensions)" % len(ends),
+                     "admin SHUTDOWN can return or be suspended before it has raised the signal (%s): if writing the answer fails - the administrator has hung up, a script that does not wait for replies - the `?` leaves before "
+                     "signal::kill: no admin-only mode, no broadcast, no timer; pgcat goes on accepting clients although SHUTDOWN was given" % (sd.describe_path(wit)[-160:] if wit else ""), kills[0].where())
+            hcalls = [c for c in (F.body("pgcat::admin::handle_admin::{closure#0}").calls("pgcat::admin::shutdown") if F.body("pgcat::admin::handle_admin::{closure#0}") else [])]
+            r2.check(bool(hcalls), "admin-shutdown-wired", "handle_admin calls shutdown() (%d site(s))" % len(hcalls), "handle_admin no longer calls admin::shutdown")
     # ---------------- R3 drain accounting
     r3 = ctx.rule("C17-R3", "client_entrypoint reports +1 before and -1 after every Client::handle of a non-admin client (both guarded by the same immutable is_admin())", floor=8)
     if ep:
